@@ -36,3 +36,16 @@ PROPS = {
                 "non-trivial = at least one acked write and one successful read; distinct = distinct event-log hash",
     },
 }
+
+ENGINES = [
+    {"name": "E1 clustersim", "path": "sim/sim", "serves_properties": ["C02"],
+     "kind_free_text": "real rqlite nodes (store+raft+bbolt+SQLite+cluster service/client+proxy+mux) in one testing/synctest bubble over a simulated network; one event per scheduler step chosen by a seeded PRNG"},
+]
+
+NOT_APPLICABLE = {
+    "C15": "pure function of the SQL text (pattern guard): no schedule, clock, fault or multi-party behaviour for a simulator to control; input-grammar testing belongs to another technique",
+    "C19": "pure boolean function of (credentials file, query); exhaustive enumeration of a finite table, not a simulation target",
+    "C28": "pure byte-stream transformation (chunker/dechunker); nothing in the running system reorders or duplicates chunks, so there is no schedule or fault dimension to simulate",
+    "C29": "pure function (marshal/unmarshal round trip) of its input",
+    "C30": "pure function of the request (JSON value round trip); no concurrency, time, I/O fault or multi-party behaviour",
+}
